@@ -2187,7 +2187,15 @@ class WBEMConnection:  # pylint: disable=too-many-instance-attributes
                 # CIMClass.tocimxml() always ignores path
                 return _cim_xml.VALUE(obj.tocimxml().toxml())
             if isinstance(obj, list):
-                if obj and isinstance(obj[0], (CIMClassName, CIMInstanceName)):
+                ref_items = [isinstance(x, (CIMClassName, CIMInstanceName))
+                             for x in obj]
+                if any(ref_items):
+                    if not all(ref_items):
+                        # VALUE.REFARRAY and VALUE.ARRAY cannot represent
+                        # a mix of references and other values
+                        raise TypeError(
+                            _format("Array method parameter mixes references "
+                                    "with other items: {0!A}", obj))
                     return _cim_xml.VALUE_REFARRAY([paramvalue(x) for x in obj])
                 return _cim_xml.VALUE_ARRAY([paramvalue(x) for x in obj])
             # The type has been checked in infer_type(), so we can assert
